@@ -405,6 +405,11 @@ impl<K: El, V: El> Mon<K, V> {
                 if capacity_call_while_split(op.code, &st0) && v.prop != HARNESS && v.more.contains(&"C01") {
                     v.extra.push("C04");
                 }
+                // contents found wrong inside the call's own checks: were objects dropped early?
+                if self.conserve && v.prop != "C06" && v.prop != HARNESS && v.more.contains(&"C01") && ledger_live() != self.live_base + 2 * self.model.len() {
+                    v.extra.push("C06");
+                    v.msg = format!("{} [ledger: {} live objects, expected {}]", v.msg, ledger_live(), self.live_base + 2 * self.model.len());
+                }
                 return Err(v);
             }
             Ok(Ok(o)) => o,
